@@ -1,15 +1,17 @@
 #!/bin/bash
-# seeded_eval.sh <seeded-id> <prop> [<prop>...]: apply seeded/<id>/patch.diff to /repo, run the quick checks, undo.
+# seeded_eval.sh <seeded-id> <prop> [<prop>...]: apply seeded/<id>/patch.diff to the tree under test, run the quick checks, undo.
+# The tree is $REPO (default /repo); nothing else may build from it while this runs.
 id=$1; shift
-patch=/verif/seeded/$id/patch.diff
-cd /verif
-git -C /repo diff --quiet || { echo "/repo has uncommitted changes"; exit 2; }
-git -C /repo apply --check $patch || { echo "patch does not apply"; exit 2; }
-git -C /repo apply $patch
-trap 'git -C /repo checkout -- . ; git -C /repo clean -fdq -- skeletons libasn1compiler libasn1fix libasn1parser libasn1print libasn1common asn1c 2>/dev/null' EXIT
+V=$(cd "$(dirname "$0")/.." && pwd)
+R=${REPO:-/repo}
+patch=$V/seeded/$id/patch.diff
+cd $V
+(cd $R && git apply --check $patch) || { echo "patch does not apply"; exit 2; }
+(cd $R && git apply $patch)
+trap '(cd $R && git apply -R $patch)' EXIT
 for p in "$@"; do
   echo "=== $id under $p"
-  rm -rf /verif/out/$p
+  rm -rf $V/out/$p
   ./check $p --tier quick > /tmp/seeded-$id-$p.log 2>&1
   echo "rc=$?"; grep -A2 '^VIOLATION\|^HARNESS\|^KNOWN' /tmp/seeded-$id-$p.log | head -12; tail -2 /tmp/seeded-$id-$p.log
 done
